@@ -68,6 +68,20 @@ func c03Scenarios(tier string) []*Scenario {
 	add("trigger-only", "a (exit_on_failure) exits 1; c waits for b",
 		projectYAML(nil, PC{Name: "a", Restart: "exit_on_failure"}, PC{Name: "b"}, PC{Name: "c", Deps: map[string]string{"b": "process_completed"}}),
 		map[string]*ProcScript{"a": {Launches: exits(1)}, "b": {Launches: exits(0)}, "c": daemon}, 1)
+	// 10. a process that finished once, is started again by hand and waits for its (restarted) dependency
+	for _, cond := range []string{"process_completed", "process_completed_successfully"} {
+		bothDone := func(w *World) bool { return w.lastStat["d"] == "Completed" && w.lastStat["b"] == "Completed" }
+		dUp := func(w *World) bool { return w.launches["d#0"] >= 2 }
+		add("restarted-waits-"+cond, "d and b completed; d and then b are started again by hand, b waits for d; shutdown arrives",
+			projectYAML(nil, PC{Name: "d"}, PC{Name: "b", Deps: map[string]string{"d": cond}}),
+			map[string]*ProcScript{"d": {Launches: [][]Action{{Exit(0)}, {}}}, "b": {Launches: [][]Action{{Exit(0)}, {}}}}, 1,
+			[]APICall{{Op: "start", Name: "d", When: bothDone}, {Op: "start", Name: "b", When: dUp}, {Op: "shutdown"}})
+	}
+	// 11. a process restarted through the API while it is in back-off
+	add("api-restart-then-shutdown", "a is restarted by hand, then the project is shut down",
+		projectYAML(nil, PC{Name: "a", Restart: "on_failure", Backoff: 1}),
+		map[string]*ProcScript{"a": {Launches: [][]Action{{Exit(1)}, {}}}}, 2,
+		[]APICall{{Op: "restart", Name: "a", When: func(w *World) bool { return w.launches["a#0"] >= 1 }}, {Op: "shutdown"}})
 	if tier == "thorough" {
 		add("three", "three independent processes, one restarting", projectYAML(nil, PC{Name: "a"}, PC{Name: "b", Restart: "always"}, PC{Name: "c", Deps: map[string]string{"a": "process_started"}}),
 			map[string]*ProcScript{"a": daemon, "b": {Launches: [][]Action{{Exit(0)}, {}}}, "c": daemon}, 2, shut)
